@@ -102,6 +102,42 @@ Lemma passes_ext : forall G e r1 r2,
   (forall v, In v (expr_vars e) -> lookup v r1 = lookup v r2) -> passes G e r1 = passes G e r2.
 Proof. intros; unfold passes; erewrite eval_ext; eauto. Qed.
 
+(** ** the boolean equalities on values and rows decide equality *)
+Lemma val_eqb_eq : forall a b, val_eqb a b = true -> a = b.
+Proof.
+  intros a b; destruct a, b; cbn [val_eqb]; try discriminate; intros H; try reflexivity.
+  - apply Bool.eqb_prop in H. congruence.
+  - apply Z.eqb_eq in H. congruence.
+  - apply String.eqb_eq in H. congruence.
+  - apply Z.eqb_eq in H. congruence.
+  - apply Z.eqb_eq in H. congruence.
+Qed.
+
+Lemma row_eqb_eq : forall a b, row_eqb a b = true -> a = b.
+Proof.
+  induction a as [|[k v] a IH]; destruct b as [|[k' v'] b]; cbn [row_eqb]; try discriminate; [reflexivity|].
+  intros H. apply andb_true_iff in H as [H H3]. apply andb_true_iff in H as [H1 H2].
+  apply String.eqb_eq in H1. apply val_eqb_eq in H2. rewrite (IH _ H3). congruence.
+Qed.
+
+(** a filter commutes with first-occurrence duplicate removal *)
+Lemma filter_dedup_gen : forall (p : row -> bool) l s1 s2,
+  (forall y, p y = true -> existsb (row_eqb y) s1 = existsb (row_eqb y) s2) ->
+  filter p (dedup s1 l) = dedup s2 (filter p l).
+Proof.
+  intros p l; induction l as [|x l IH]; intros s1 s2 H; cbn [dedup filter]; [reflexivity|].
+  destruct (p x) eqn:Px.
+  - cbn [dedup]. rewrite <- (H x Px). destruct (existsb (row_eqb x) s1); [apply IH, H|].
+    cbn [filter]. rewrite Px. f_equal. apply IH. intros y Py. cbn [existsb]. rewrite (H y Py). reflexivity.
+  - destruct (existsb (row_eqb x) s1); [apply IH, H|].
+    cbn [filter]. rewrite Px. apply IH. intros y Py. cbn [existsb].
+    destruct (row_eqb y x) eqn:E; [|apply H, Py].
+    apply row_eqb_eq in E. subst. congruence.
+Qed.
+
+Lemma filter_dedup : forall (p : row -> bool) l, filter p (dedup [] l) = dedup [] (filter p l).
+Proof. intros. apply filter_dedup_gen. reflexivity. Qed.
+
 (** ** list facts *)
 Lemma dedup_In : forall rs seen r, In r (dedup seen rs) -> In r rs.
 Proof.
@@ -156,7 +192,9 @@ Proof.
     apply in_map_iff in Hr as (et & <- & _). rewrite keys_app, (IH U _ H0), keys_xcols. reflexivity.
   - apply filter_In in Hr as [Hr _]. auto.
   - apply in_map_iff in Hr as (r0 & <- & _). apply keys_project_row.
-  - apply in_map_iff in Hr as (r0 & <- & _). apply keys_project_row.
+  - assert (In r (map (project_row G items) (sem G inp))) as Hr'
+      by (unfold return_rows in Hr; destruct dd; [eapply dedup_In; eauto|exact Hr]).
+    apply in_map_iff in Hr' as (r0 & <- & _). apply keys_project_row.
   - apply andb_true_iff in U as [Ul Ur]. unfold join_rows in Hr.
     apply in_flat_map in Hr as (a & Ha & Hr).
     set (ms := filter (fun b => forallb (cond_holds (schema pl) (schema pr) a b) cs) (sem G pr)) in *.
